@@ -33,20 +33,29 @@ example : pnCommand 0x42 ⟨.ok, [.frame ack, .raise 110]⟩ = .error (.io 110) 
 example : pnCommand 0x42 ⟨.ok, [.frame ack, .frame [0, 0, 0xFF, 1, 0xFF, 0x7F, 0x81, 0]]⟩ = .error (.chipsetError 0x7F) := by
   decide
 
-/-- FULL for pn531, pn532, pn533, rcs956, acr122, arygon (A and B) and udp, both
-directions, every target kind: whatever the host link does at EVERY host
-command of the exchange and whatever status the chip reports, the caller of
-`ContactlessFrontend.exchange` gets data or TimeoutError / TransmissionError /
-BrokenLinkError / ProtocolError / IOError - never `Chipset.Error`, IndexError,
-struct.error, ValueError...  `PayloadOK`: responses that pass the frame
-validation carry the number of octets the chip manual specifies. -/
-theorem driver_outcome_documented (c : Cfg) (brty : Bytes) (w : Nat → Host) (polls : List Host)
+/-- PARTIAL (hypothesis `PayloadOK`) for pn531, pn532, pn533, rcs956, acr122, arygon
+(A and B); full for udp.  Both directions, every target kind: whatever the host link
+does at EVERY host command of the exchange and whatever status the chip reports,
+the caller of `ContactlessFrontend.exchange` gets data or TimeoutError /
+TransmissionError / BrokenLinkError / ProtocolError / IOError - never
+`Chipset.Error`, IndexError, struct.error, ValueError...
+Missing part: `PayloadOK` - responses that pass the frame validation carry the number
+of octets the chip manual specifies (a status octet, one value per register read, at
+least two FIFO octets).  Without it the statement is false on the current code, see
+`short_payload_counterexample` and `fifo_single_register_counterexample` (open findings
+`pn53x-short-payload-internal-error`, `pn53x-fifo-level-internal-error`). -/
+theorem driver_outcome_documented_partial (c : Cfg) (brty : Bytes) (w : Nat → Host) (polls : List Host)
     (h380 : c.drv ≠ .rcs380) (hp : c.drv ≠ .udp → PayloadOK c w polls) :
     Safe Documented (exchange .repaired c brty w polls) := by
   rw [exchange_eq]
   by_cases hu : c.drv = .udp
   · exact udp_exchange_doc c brty w polls hu
   · exact pn_exchange_doc c brty w polls h380 hu (hp hu)
+
+/-- the full statement for the PN53x family and udp (no hypothesis on payload lengths) -/
+def PnFullStatement : Prop :=
+  ∀ (c : Cfg) (brty : Bytes) (w : Nat → Host) (polls : List Host), c.drv ≠ .rcs380 →
+    Safe Documented (exchange .repaired c brty w polls)
 
 /-- nominal world: every host command is acknowledged and answered with `p i` -/
 def nominalWorld (p : Nat → Bytes) : Nat → Host := fun i => ⟨.ok, [.frame ack, .good (p i)]⟩
@@ -62,6 +71,23 @@ example : exchange .repaired ⟨.pn533, .initiator, .thru, true, false, true⟩ 
 example : exchange .repaired ⟨.pn533, .initiator, .thru, true, false, true⟩ []
     (nominalWorld fun i => if i = 0 then [0, 1, 2, 3] else if i = 3 then [1] else [0]) [] = .error .timeout := by
   decide
+
+/-- The full statement is false on the current code: a well-formed InCommunicateThru
+response without status octet (`D5 43`) reaches `chipset_error(bytearray())`, whose
+`cause[0]` raises IndexError out of `exchange()`. -/
+theorem short_payload_counterexample : ¬ PnFullStatement := by
+  intro h
+  have hs := h ⟨.pn531, .initiator, .thru, true, false, true⟩ []
+    (nominalWorld fun i => if i = 0 then [1, 2, 3] else []) [] (by decide) .index (by decide)
+  rcases hs with h | h | h | h | ⟨n, h⟩ <;> cases h
+
+/-- As coded `read_register` returns an int for one register: in the Type 3 Tag target
+loop a FIFO level of 1 makes `bytearray(int)`; with the octet 0 the frame is empty and
+`fifo_data[0]` raises IndexError out of `exchange()`. -/
+theorem fifo_single_register_counterexample :
+    exchange .repaired ⟨.pn531, .target, .thru, false, true, true⟩ []
+      (nominalWorld fun i => if i = 3 then [1] else if i = 4 then [0] else [])
+      [⟨.ok, [.frame ack, .good [0x20, 0]]⟩] = .error .index := by decide
 
 /-- RC-S380, PARTIAL: holds when every host command of the exchange either
 fails with a transport IOError or completes with a response of the specified
